@@ -4,6 +4,7 @@ harness glue and Coq term printers.  Each property subclasses Pool with its own 
 import json
 import os
 import re
+import random
 import subprocess
 
 import core
@@ -11,7 +12,9 @@ from core import Plugin, CheckError
 
 URIS = ["http://a.test", "https://a.test", "http://a.test:8080", "http://b.test", "http://A.TEST",
         "HTTP://a.test", "http://a.test:80", "",
-        "http://a.test|b.test", "http://b.test|a.test", "http://a.test|a.test"]   # "<uri>|<Host header>"
+        "http://a.test|b.test", "http://b.test|a.test", "http://a.test|a.test",   # "<uri>|<Host header>"
+        "http://u:p@a.test:8080", "http://x@a.test"]
+URIS = URIS + [""] * (100 - len(URIS)) + [f"http://o{u}.test" for u in range(100, 400)]   # synthetic origins
 TIMEOUT_MS = 400
 TICK_MS = 1000
 
@@ -150,6 +153,9 @@ def gen_history(rng, nops, nkeys, timed, weights=None):
     if rng.random() < 0.15:
         # requests that carry an explicit Host header naming another (or the same) origin of the table
         keys = keys + rng.sample([8, 9, 10, 0, 3], 2)
+    if rng.random() < 0.12:
+        # userinfo in the authority next to the same host with other ports
+        keys = keys + rng.sample([11, 12, 0, 2, 6], 3)
     ops = []
     nreq = 0
     nconn = 0
@@ -235,7 +241,7 @@ def gen_template(rng):
     k = rng.randrange(7)
     pb = rng.choice([1, 2])
     t = rng.choice(["preempt_owner", "preempt_owner", "pop_window", "pushback", "owner_fails", "refill", "refill",
-                    "owner_dropped", "owner_dropped", "bg_attempt_dies", "bg_attempt_dies"])
+                    "owner_dropped", "owner_dropped", "bg_attempt_dies", "bg_attempt_dies", "queued_waiters", "queued_waiters"])
     if t == "preempt_owner":
         ops = [["I", k, 1], ["P", 0], ["D", 0, "o"], ["P", 0],
                ["I", k, 2], ["P", 1], ["I", k, pb], ["P", 2],
@@ -277,6 +283,26 @@ def gen_template(rng):
         ops += rng.choice([[["D", 0, "o"], ["B"]], [["D", 0, "c"], ["B"]], [["B"], ["D", 0, "o"], ["B"]]])
         ops += [["P", 1], ["I", k, 2], ["P", 3 if len([o for o in ops if o[0] == "I"]) == 3 else 2]]
         nreq, nconn = 4, 2
+    elif t == "queued_waiters":
+        # several holders, several queued requests (unpolled, or polled once so that their own dial is pending);
+        # the holders release one after the other, each hand-back runs before the next; then the queue is polled
+        nh = rng.choice([2, 2, 3])
+        nw = rng.choice([2, 2, 3])
+        hs = list(range(nh))
+        ws = list(range(nh, nh + nw))
+        ops = [["I", k, 1] for _ in hs] + [["P", r] for r in hs] + [["D", r, "o"] for r in hs] + [["P", r] for r in hs]
+        ops += [["I", k, pb if rng.random() < 0.2 else 1] for _ in ws]
+        polled = [w for w in ws if rng.random() < 0.35]
+        ops += [["P", w] for w in polled]
+        for r in hs:
+            ops += [["F", r], ["P", r], ["R", r], ["B"]]
+            if rng.random() < 0.2:
+                ops.append(["P", rng.choice(ws)])
+        order = ws[:]
+        rng.shuffle(order)
+        ops += [["P", w] for w in order]
+        ops += [["B"]] + [["P", w] for w in ws]
+        nreq, nconn = nh + nw, nh
     elif t == "bg_attempt_dies":
         # an HTTP/1 holder, then an HTTP/2 owner whose attempt has started is dropped (the attempt goes on in the
         # background or is dropped); the HTTP/1 connection comes back while nobody is queued; the abandoned attempt
@@ -339,6 +365,26 @@ def gen_idle_state(rng):
         ops.insert(pos, rng.choice([["B"], ["P", rng.randrange(nreq)], ["R", rng.randrange(nconn)], ["C", rng.randrange(nconn)],
                                     ["X", rng.randrange(nreq)]]))
     return ops, nreq, nconn, m
+
+
+def gen_many_origins(rng):
+    """hundreds of distinct origins alive in one pool (per-origin bookkeeping under pressure) around one origin
+    whose connections are checked out, released and re-requested"""
+    a = rng.randrange(7)
+    m = rng.choice([1, 1, 2])
+    ops = [["I", a, 1], ["P", 0], ["D", 0, "o"], ["P", 0]]
+    n = rng.choice([257, 258, 270])
+    ops += [["I", 100 + j, 1] for j in range(n)]
+    nreq = 1 + n
+    k = m + 1
+    rs = list(range(nreq, nreq + k))
+    ops += [["I", a, 1] for _ in rs] + [["P", r] for r in rs] + [["D", r, "o"] for r in rs] + [["P", r] for r in rs]
+    nreq += k
+    for c, r in enumerate([0] + rs):          # request 0 holds connection 0, rs[i] holds connection i + 1
+        ops += [["F", r], ["P", r], ["R", c], ["B"]]
+    ops += [["I", a, 1], ["P", nreq]]
+    nreq += 1
+    return ops, nreq, 1 + k, m
 
 
 def gen_phased(rng, timed):
@@ -465,6 +511,13 @@ class Pool(Plugin):
     def generate(self, tier, rng):
         n = self.n_quick if tier == "quick" else self.n_thorough
         cases = [self.gen_case(rng, tier) for _ in range(n)]
+        if self.prop in ("C15", "C06") and tier != "quick":
+            # per-origin bookkeeping under pressure: histories over 257-270 distinct origins (expensive to evaluate:
+            # every snapshot lists every origin, about 90 s each; thorough tier only, four of them, no closing procedure)
+            r2 = random.Random(rng.random())
+            for _ in range(4):
+                ops, nreq, nconn, m = gen_many_origins(r2)
+                cases.insert(r2.randrange(0, max(1, len(cases))), {"cfg": [True, None, m, r2.random() < 0.5], "ops": ops, "drained": None})
         kinds = {"timed": sum(1 for c in cases if any(o[0] == "T" for o in c["ops"])),
                  "drained": sum(1 for c in cases if c.get("drained"))}
         return cases, {"rule": f"{n} seeded histories from four generators: uniform random histories (6-45 ops, 5 weight profiles: "
@@ -472,9 +525,9 @@ class Pool(Plugin):
                                "re-issue injected into the window between an Issue and its first poll), phase-structured histories "
                                "(bursts served, partial releases + hand-back, ticks, peer closes, newcomers), timed 'aging' histories "
                                f"(real sleeps: {TICK_MS} ms ticks vs a {TIMEOUT_MS} ms idle timeout; {kinds['timed']} timed cases) and perturbed interleaving "
-                               "templates (pre-empted owner, pop window, push-back, failing owner, refill at the idle limit, owner dropped, abandoned background attempt dying after the queue emptied) and idle-limit "
+                               "templates (pre-empted owner, pop window, push-back, failing owner, refill at the idle limit, owner dropped, abandoned background attempt dying after the queue emptied, several queued requests served by successive hand-backs) and idle-limit "
                                "histories (idle list driven to max_idle, entries closed in place, further releases, newcomers); 1-3 origins "
-                               "from a table of 7 URIs differing in scheme/port/host/case + one without scheme + 3 whose request carries an explicit Host header naming another or the same origin, h1/h2/ALPN mixed, dial "
+                               "from a table of 7 URIs differing in scheme/port/host/case + one without scheme + 3 whose request carries an explicit Host header naming another or the same origin + 2 with userinfo in the authority, h1/h2/ALPN mixed, dial "
                                f"outcomes ok/alpn/connect-error/handshake-error; {kinds['drained']} cases end with the closing procedure + probe",
                        "exhaustive": False}
 
